@@ -2,6 +2,7 @@
 import ast
 import math
 import os
+import time
 
 from harness import core, py2lean, instantiate
 from harness.core import Outcome, f2b, b2f
@@ -531,6 +532,39 @@ def correspondence(ctx):
 MJD_ULP_S = 7.275957614183426e-12 * 86400  # resolution of Date._mjd (the interpolation abscissa) around MJD 59000, in seconds
 
 
+class _Budget:
+    """wall-clock guard around one group of propagations: an integrator whose step collapses (thousands of times more
+    steps than requested) is reported as a failing input instead of hanging the check"""
+
+    def __init__(self, seconds):
+        self.seconds = seconds
+
+    def __enter__(self):
+        import signal
+
+        def _raise(signum, frame):
+            raise TimeoutError("propagation exceeded its time budget")
+        self.old = signal.signal(signal.SIGALRM, _raise)
+        signal.setitimer(signal.ITIMER_REAL, self.seconds)
+
+    def __exit__(self, *a):
+        import signal
+        signal.setitimer(signal.ITIMER_REAL, 0)
+        signal.signal(signal.SIGALRM, self.old)
+        return False
+
+
+def guarded(out, budget, fam, inp, fn, *args):
+    try:
+        with _Budget(budget):
+            return fn(*args)
+    except TimeoutError:
+        out.fail(fam + "-no-progress", f"propagation did not finish within {budget} s (a run of this size takes < 2 s): the step size collapses or the loop does not advance",
+                 inp)
+    except (RuntimeError, ValueError, TypeError, KeyError, OverflowError, ZeroDivisionError) as e:
+        out.fail(fam + "-raises-" + type(e).__name__, "the propagator raises inside the property's domain: " + str(e)[:120], inp)
+
+
 def _finite(out, fam, what, inp, arr):
     import numpy as np
     if not np.all(np.isfinite(arr)):
@@ -755,8 +789,10 @@ def oracle(ctx, widened):
     rng = ctx.rng
     mu = float(earth().µ)
     big = widened or ctx.thorough
-    ncases = 120 if big else 32
+    ncases = 120 if big else 24
     cap = 900 if big else 130     # integration steps per run (the +-3 orbit quantifier is reached in the thorough tier)
+    t_start = time.time()
+    stuck = {}
     for k in range(ncases):
         o = gen_orbit(rng, mu)
         h = q(rng.uniform(5, 120)) if rng.random() < 0.8 else rng.choice([5.0, 120.0, 60.0])
@@ -768,14 +804,31 @@ def oracle(ctx, widened):
         if T == 0:
             T = h
         out.tally("full-3-orbit-horizon" if abs(T) >= 0.99 * 3 * o["period"] else "horizon<3 orbits")
-        check_rk4(out, o, h, T, mu, deep=big and k % 4 == 0)
-        check_euler(out, o, h, T, mu)
+        inp = case_inp(o, h, T)
+        B = 40 if big else 20
+        if time.time() - t_start > (600 if ctx.thorough else 330 if widened else 45):
+            out.notes.append(f"oracle stopped after {k} of {ncases} orbits: time budget of the tier reached")
+            break
+
+        def run(fam, inp_, fn, *args):
+            # a family that made no progress twice is not tried again (each attempt costs the whole budget B)
+            if stuck.get(fam, 0) >= 2:
+                out.tally("skipped-after-no-progress=" + fam)
+                return
+            n0 = len(out.failures)
+            guarded(out, B, fam, inp_, fn, *args)
+            if any(f["family"].endswith("-no-progress") for f in out.failures[n0:]):
+                stuck[fam] = stuck.get(fam, 0) + 1
+        run("rk4", inp, check_rk4, out, o, h, T, mu, big and k % 4 == 0)
+        run("euler", inp, check_euler, out, o, h, T, mu)
         tol = 10 ** rng.uniform(-6, -2)
         for method in ADAPTIVE:
-            check_adaptive(out, o, h, T, mu, method, 1e-3 if k % 2 else tol)
+            t_ = 1e-3 if k % 2 else tol
+            run(method, dict(inp, method=method, tol=t_), check_adaptive, out, o, h, T, mu, method, t_)
         m = METHODS[1 + k % 3]
-        check_independence(out, o, h, mu, m, rng)
-        check_chained(out, o, h, T, mu, METHODS[1 + (k + 1) % 3], tol)
+        run("independence-" + m, dict(inp, method=m), check_independence, out, o, h, mu, m, rng)
+        m2 = METHODS[1 + (k + 1) % 3]
+        run("chained-" + m2, dict(inp, method=m2, tol=tol), check_chained, out, o, h, T, mu, m2, tol)
     out.sample({"checks": "rk4 order by step halving + error bound + first integrals; euler order; rkf54/dopri54 global error, drift, one-step error <= 2 tol; "
                           "independence of output step, dates vs step, propagate vs iterate; chained propagate keeps settings"})
     return out
@@ -791,15 +844,16 @@ def replay(f):
          "n_p": math.sqrt(mu * (1 + e) / rp ** 3)}
     fam = f["family"]
     import random
+    B = 120
     if fam.startswith("rk4"):
-        check_rk4(out, o, i["step"], i["T"], mu, deep=False)
+        guarded(out, B, "rk4", i, check_rk4, out, o, i["step"], i["T"], mu, False)
     elif fam.startswith("euler"):
-        check_euler(out, o, i["step"] * 4, i["T"], mu)
-    elif fam.startswith("chained"):
-        check_chained(out, o, i["step"], i["T"], mu, i["method"], i["tol"])
+        guarded(out, B, "euler", i, check_euler, out, o, i["step"] * (4 if fam in ("euler-order", "euler-error-bound") else 1), i["T"], mu)
+    elif fam.startswith("chained") or fam.startswith("propagate-result"):
+        guarded(out, B, "chained-" + i["method"], i, check_chained, out, o, i["step"], i["T"], mu, i["method"], i["tol"])
     elif fam.startswith("independence") or fam.startswith("iter"):
-        for s in range(20):
-            check_independence(out, o, i["step"], mu, i["method"], random.Random(s))
+        for s_ in range(20):
+            guarded(out, B, "independence-" + i["method"], i, check_independence, out, o, i["step"], mu, i["method"], random.Random(s_))
     elif "method" in i:
-        check_adaptive(out, o, i["step"], i["T"], mu, i["method"], i.get("tol", 1e-3))
+        guarded(out, B, i["method"], i, check_adaptive, out, o, i["step"], i["T"], mu, i["method"], i.get("tol", 1e-3))
     return out
